@@ -7,6 +7,77 @@ from . import files as Fm
 from . import readmodes as R
 
 
+def boundary_files(chk, runner, shapes, tier):
+    """files whose FOOTER length falls just below / at / above a power of two (sizes of read-ahead buffers):
+    two required numeric columns, about 64 (4 KiB) or 1020 (64 KiB) row groups of one record, some of them
+    with 64 records to move the widths of the varints; a grid is written with the real writer, the footer
+    length read from the trailer, and the files closest to the boundary are kept.  The extracted model needs
+    minutes per file of this many row groups, so the oracle here is what the construction knows: row counts,
+    number of row groups, one page header per chunk, no error, no panic - on the introspection calls and on
+    a full read."""
+    fn = next((s for s in shapes if s.name == "flatnum"), None)
+    if fn is None:
+        return 0, 0
+
+    def hist(n, m64):
+        ops = []
+        for g in range(n):
+            ops += ["G 2 I%d I%d" % (g, g)] * (64 if g < m64 else 1) + ["W"]
+        return ops
+    checked = hit = 0
+    for bound, ns in ((4096, range(60, 68)), (65536, range(1015, 1030))):
+        cands = [(n, m) for n in ns for m in range(0, 24)]
+        ws = [Fm.Workload(fn, 0, 1000, hist(n, m), "footer-size") for n, m in cands]
+        impl, _, _, _ = C.run_cases(Fm.shape_lines(shapes) + [w.line("w%d" % i) for i, w in enumerate(ws)], "C16-grid", impl_cmd=[runner], model_lines=[])
+        by_len = {}
+        for i, (n, m) in enumerate(cands):
+            pw = Fm.parse_write(impl.get("w%d" % i))
+            if not pw or "1" in pw[0]:
+                chk.fail("footer-size|%d|%d|write" % (n, m), "writing %d row groups failed: %s" % (n, (impl.get("w%d" % i) or "")[:100]), {"row_groups": n, "with_64_records": m})
+                continue
+            f = b"".join(pw[1])
+            by_len.setdefault(int.from_bytes(f[-8:-4], "little"), (n, m, f))
+        near = [L for L in sorted(by_len) if bound - 12 <= L <= bound + 3]
+        if tier == "quick":
+            near = near[-6:]
+        lines, rlines = [], Fm.shape_lines(shapes)
+        for L in near:
+            n, m, f = by_len[L]
+            lines.append("i%d introspect %s" % (L, C.hexs(f)))
+            rlines.append("r%d read flatnum %s plain" % (L, C.hexs(f)))
+        if not near:
+            continue
+        d0 = os.path.join(C.WORK, "cases")
+        with open(os.path.join(d0, "C16-boundary.txt"), "w") as fh:
+            fh.write("\n".join(lines) + "\n")
+        rc, out, err = C.run([os.path.join(C.BIN, "corehar"), "run", os.path.join(d0, "C16-boundary.txt")], timeout=900)
+        intro = dict(l.split(" ", 1) for l in out.splitlines() if " " in l)
+        with open(os.path.join(d0, "C16-boundary-read.txt"), "w") as fh:
+            fh.write("\n".join(rlines) + "\n")
+        rc, out, err = C.run([runner, os.path.join(d0, "C16-boundary-read.txt")], timeout=900)
+        reads = dict(l.split(" ", 1) for l in out.splitlines() if " " in l)
+        for L in near:
+            n, m, f = by_len[L]
+            rows = 64 * m + (n - m)
+            a = intro.get("i%d" % L) or ""
+            ra = Fm.parse_read(reads.get("r%d" % L))
+            checked += 1
+            hit += 1 if bound - 8 <= L <= bound else 0
+            chk.count(("footer-size", L))
+            what = None
+            if not a.startswith("META "):
+                what = "introspection gives %s" % (a[:100] or "nothing")
+            elif " rows=%d " % rows not in a or a.count(" rg:") != n or " HEADERS %d " % (2 * n) not in a or "ERR" in a or a.split(" ATOFFSET", 1)[1].count(" n1 ") + a.endswith(" n1") < 0:
+                what = "introspection reports rows/row groups/page headers other than %d/%d/%d: %s..." % (rows, n, 2 * n, a[:80])
+            elif a.split(" ATOFFSET", 1)[1].split().count("n1") != 2 * n:
+                what = "PageHeadersAtOffset does not list one header for each of the %d chunks" % (2 * n)
+            elif ra is None or ra["status"] != "OK" or int(ra["rows"]) != rows or int(ra["nexts"]) != rows:
+                what = "reading the file gives %s" % (reads.get("r%d" % L) or "")[:100]
+            if what:
+                chk.fail("footer-size|%d" % L, "file of %d row groups (%d with 64 records) whose footer is %d bytes long: %s" % (n, m, L, what), {"row_groups": n, "with_64_records": m, "footer_length": L})
+    return checked, hit
+
+
 def run(chk, st, tier):
     rng = random.Random(chk.seed)
     shapes, runner = Fm.get_portfolio(chk)
@@ -54,6 +125,9 @@ def run(chk, st, tier):
         else:
             ok += 1
             headers += a.count(":") and int(a.split(" HEADERS ")[1].split()[0]) if " HEADERS " in a else 0
+    bchecked, bhit = boundary_files(chk, runner, shapes, tier)
+    chk.coverage["footer_size_boundary_files"] = bchecked
+    chk.coverage["footer_sizes_within_8_bytes_below_a_power_of_two"] = bhit
     chk.coverage["files"] = len(files)
     chk.coverage["files_reported_exactly"] = ok
     chk.coverage["page_headers_compared"] = headers
@@ -61,6 +135,6 @@ def run(chk, st, tier):
     if files:
         chk.sample({"file": files[0][0].describe(), "library": (impl.get("i0") or "")[:200]})
     chk.coverage["rule"] = ("portfolio files (random histories, page sizes {1,2,3,7,1000}, 3 codecs; plus files whose string values and statistics exceed 1 KiB / 64 KiB): parquet.ReadMetaData, PageHeaders and PageHeadersAtOffset (per chunk) on the real bytes, compared field by field with "
-                            "(a) the footer and the page headers the extracted independent validator finds by walking the file, and (b) the Coq model of the three calls. distinct = distinct files; non-trivial = at least one row group.")
+                            "(a) the footer and the page headers the extracted independent validator finds by walking the file, and (b) the Coq model of the three calls. Plus files of ~64 / ~1020 row groups whose footer length lies within 12 bytes below to 3 above 4096 / 65536 (found by writing a grid with the real writer), checked against what their construction implies (model too slow at this many row groups). distinct = distinct files; non-trivial = at least one row group.")
     chk.coverage["explanation"] = "see coq/props/C16.v."
     chk.assumptions += ['validator walk is independent of parquet.PageHeaders; thrift model tested against the library']
